@@ -70,6 +70,8 @@ type ReturnPoint struct {
 }
 
 type Exec struct {
+	alwaysKeep map[int]bool // indices of hypotheses the slicer never drops
+	puMemo map[[3]*Term][2]*Term
 	ibApps map[string][]ibApp
 	opaque   map[string]bool
 	rootOpts map[string]string // options of the contract of the function being verified
